@@ -153,4 +153,31 @@ theorem tso_structure_facts :
     PdModel.Generated.Tso.setPhysicalHoldsTsoMux = true ∧
     PdModel.Generated.Tso.maxLogical = 2 ^ PdModel.Generated.Tso.physicalShiftBits := by decide
 
+/-! ### client side -/
+
+/-- **the client hands out exactly the owned set**: for a response with count `count` whose logical part
+    is `raw << bits | suffix` (the highest value), the values the client distributes are the `count`
+    consecutive raw values ending at `raw`, each carrying the same suffix – for every width and suffix. -/
+theorem client_batch_exact (raw count bits suffix : Nat) (hr : count ≤ raw) :
+    clientSplit (raw * 2 ^ bits + suffix) count bits
+      = (List.range count).map (fun i => (raw - count + 1 + i) * 2 ^ bits + suffix) := by
+  unfold clientSplit
+  apply List.map_congr_left
+  intro i hi
+  have hi' : i < count := List.mem_range.1 hi
+  unfold addLogical
+  have hsub : ((raw - count : Nat) : Int) = (raw : Int) - count := by omega
+  have : ((raw * 2 ^ bits + suffix : Nat) : Int) + (-(count : Int) + 1) * 2 ^ bits + (i : Int) * 2 ^ bits
+       = (((raw - count + 1 + i) * 2 ^ bits + suffix : Nat) : Int) := by
+    push_cast
+    rw [hsub]
+    generalize (2 : Int) ^ bits = P
+    grind
+  rw [this]; exact Int.toNat_natCast _
+
+/-- the fallback detector is the lexicographic "≤" -/
+theorem tsLessEqual_iff (p l tp tl : Nat) :
+    tsLessEqual p l tp tl = true ↔ (p < tp ∨ (p = tp ∧ l ≤ tl)) := by
+  unfold tsLessEqual; split <;> simp_all <;> omega
+
 end PdModel.Tso
